@@ -218,7 +218,7 @@ class StandardTextLayout(TextLayout):
                 pad_right = 0
 
             line = []
-            if idx != end_off:
+            if screen_columns:  # nothing to show for an empty line or a line of zero-width characters only
                 line += [(screen_columns, idx, end_off)]
             if trimmed:
                 line += [(ellipsis_width, end_off, ellipsis_char)]
